@@ -24,6 +24,15 @@ Round 3: value kind ``xfloat`` (NaN, the infinities and -0.0 among the floats; a
 null), ``append`` elements in sequences (the frame is mutated between calls), the ``decoy`` backing (the
 same calls on another frame with the same column names first) and ``self_contained`` (a failing input is
 confirmed in a fresh interpreter before it is reported).
+
+Round 4: ``keq`` cases — key columns that hold values which are EQUAL but written differently (``1``,
+``1.0``, ``True``; ``0``, ``0.0``, ``-0.0``, ``False``; composite keys that differ only in such a
+component).  "Partitions the rows by equality of their key values" is Python's ``==`` there: the mirror
+partitions by ``==``, rows are matched by ``==`` of their keys (which member of a class the result shows
+is not demanded), the Lean model is ``Model/GroupByEq.lean`` (dictionaries looked up by an equivalence;
+Python's ``==`` on scalars as exact numerical equality).  All other cases stay in the domain where ``==``
+and structural equality coincide, as before.  Every cell handed to the implementation is a fresh object
+(equal keys are never identical objects by accident).
 """
 import glob
 import itertools
@@ -122,6 +131,9 @@ def valid_case(c):
             return False
         vset = set(c["vcols"])
         xfloat = vkind == "xfloat"
+        keq = c.get("keq", False)
+        if keq not in (False, True) or (keq and xfloat):
+            return False
         if not vset <= set(cols):
             return False
         if (c.get("scale", 1) != 1 or vkind != "number") and vset & set(c["keys"]):
@@ -145,7 +157,7 @@ def valid_case(c):
                         return False
                 elif not (x is None or isinstance(x, (bool, int, float, str))):
                     return False
-                elif isinstance(x, float) and (x != x or (x == 0 and math.copysign(1, x) < 0)):
+                elif isinstance(x, float) and (x != x or (x == 0 and math.copysign(1, x) < 0 and not keq)):
                     return False
         if c.get("op", "aggregate") == "aggregate":
             if not isinstance(c["reqs"], list) or not c["reqs"]:
@@ -187,9 +199,23 @@ def valid_case(c):
         return False
 
 
+def same_key(case):
+    """The equality of two key tuples (lists of cells): Python's `==` for a `keq` case — `1 == 1.0 == True`,
+    `0 == -0.0 == False`, `None` equal to itself only, element by element — and structural equality (the
+    same thing, on the domains of all other cases) otherwise."""
+    if case.get("keq"):
+        return lambda a, b: list(a) == list(b)
+    return lambda a, b: wire.same(list(a), list(b))
+
+
 def in_domain(case):
-    """Python equality and structural equality coincide on the key tuples of the case."""
+    """Python equality and structural equality coincide on the key tuples of the case; for a `keq` case:
+    every key cell is a null, a boolean, an integer, a float that is not a NaN, or a text (the values on
+    which `==` is an equivalence that agrees with `hash`, and which Model/GroupByEq.lean models)."""
     kidx = [case["columns"].index(k) for k in case["keys"] if k in case["columns"]]
+    if case.get("keq"):
+        return all(r[i] is None or (isinstance(r[i], (bool, int, float, str)) and r[i] == r[i])
+                   for r in case["rows"] for i in kidx)
     rows = actual_rows(case)
     seen = []
     for r in rows:
@@ -234,10 +260,26 @@ def backing_label(b):
     return " [%s-backed]" % ("gen" if b == "gen" else "lazily " + b if b in LAZY else b)
 
 
+def fresh(v):
+    """An equal value that is a new object where Python allows one (floats, big integers, texts of two or
+    more characters): grouping is by equality, never by identity."""
+    if isinstance(v, bool) or v is None:
+        return v
+    if isinstance(v, float):
+        return float.fromhex(v.hex())
+    if isinstance(v, int):
+        return int(str(v))
+    if isinstance(v, str):
+        return "".join(list(v))
+    if isinstance(v, Decimal):
+        return Decimal(str(v))
+    return v
+
+
 def _frame(case, backing):
     from orso import DataFrame
 
-    rows = actual_rows(case)
+    rows = [tuple(fresh(x) for x in r) for r in actual_rows(case)]
     cols = list(case["columns"])
     if backing == "gen":
         return DataFrame(rows=(r for r in rows), schema=cols)
@@ -321,7 +363,7 @@ def run_impl(case, backing="list"):
 
 # ---- sequences of calls on one (or two) GroupBy objects of one frame
 
-SUB_KEYS = ("columns", "vcols", "rows", "scale", "mixed", "vkind", "negzero")
+SUB_KEYS = ("columns", "vcols", "rows", "scale", "mixed", "vkind", "negzero", "keq")
 # uses of the frame itself between two grouping calls; none of them may change any later result
 NOOPS = ("len", "rowcount", "peek")
 # ... and a mutation of the frame between two calls: `df.append(row)`.  The GroupBy objects hold a reference
@@ -417,7 +459,7 @@ def run_impl_seq(case, backing="list"):
         if is_noop(el):
             try:
                 if el["op"] == APPEND:
-                    df.append(dict(zip(case["columns"], actual_rows(dict(case, rows=[el["row"]]))[0])))
+                    df.append(dict(zip(case["columns"], [fresh(x) for x in actual_rows(dict(case, rows=[el["row"]]))[0]])))
                 elif el["op"] == "len":
                     len(df)
                 elif el["op"] == "rowcount":
@@ -439,7 +481,7 @@ def run_impl_seq(case, backing="list"):
     return out
 
 
-def oracle_seq(case, ctx=None, by_backing=None):
+def oracle_seq(case, ctx=None, by_backing=None, wants=None):
     """The property on every call of the sequence. Returns (clause|None, results of the first backing).
 
     Lazily backed frames (a generator handed to DataFrame, the result of select / filter / take):
@@ -449,6 +491,8 @@ def oracle_seq(case, ctx=None, by_backing=None):
     C12-w2s2: GroupBy._map reading the backing store directly consumes the generator, later calls see no
     rows)."""
     first = None
+    if wants is None:
+        wants = [None if sub is None else mirror(sub) for _, sub in seq_subs(case)]
     for b in case.get("backings", ["list"]):
         res = run_impl_seq(case, b)
         if by_backing is not None:
@@ -457,13 +501,12 @@ def oracle_seq(case, ctx=None, by_backing=None):
             first = res
         used = set()
         appended = False
-        for i, ((el, sub), impl) in enumerate(zip(seq_subs(case), res)):
+        for i, ((el, sub), impl, want) in enumerate(zip(seq_subs(case), res, wants)):
             if is_noop(el):
                 if impl[0] == "err":
                     return "%s of the frame raised %s%s" % (el["op"], impl[1], backing_label(b)), res
                 appended = appended or el["op"] == APPEND
                 continue
-            want = mirror(sub)
             g = el.get("gb", 0)
             cl = compare(sub, impl, want)
             if b in LAZY and i > 0 and ctx is not None:
@@ -471,9 +514,9 @@ def oracle_seq(case, ctx=None, by_backing=None):
                                               else "no-rows" if not impl[2] else "other"))
             if cl is not None:
                 if g in used:
-                    cl = "a later call on the same GroupBy object: " + cl
+                    cl = LATER_CALL + cl
                 elif i > 0:
-                    cl = "a call on a second GroupBy object of the same frame: " + cl
+                    cl = SECOND_OBJECT + cl
                 if appended:
                     cl = APPENDED + cl
                 if b != "list":
@@ -486,7 +529,7 @@ def oracle_seq(case, ctx=None, by_backing=None):
 def model_lines_seq(case):
     """One driver line per GroupBy object: its calls in order.  (A frame with non-finite floats: one line
     per call — theorem `sequence_independent` is what makes the calls of a sequence independent.)"""
-    if is_x(case) or has_appends(case):
+    if is_x(case) or has_appends(case) or case.get("keq"):
         return [model_line(sub) for _, sub in seq_subs(case) if sub is not None]
     lines = []
     for g, keys in enumerate(case["gbs"]):
@@ -500,7 +543,7 @@ def model_lines_seq(case):
 
 def model_results_seq(case, texts):
     """The model's result for every element of the sequence, in the mirror's form."""
-    if is_x(case) or has_appends(case):
+    if is_x(case) or has_appends(case) or case.get("keq"):
         it = iter(texts)
         return [("noop",) if sub is None else model_result(sub, next(it)) for _, sub in seq_subs(case)]
     per_gb = []
@@ -540,7 +583,8 @@ def code_line_seq(case, lazy):
     for el in case["seq"]:
         if not is_noop(el):
             calls.append([el.get("gb", 0), ["groups"] if el.get("op", "aggregate") == "groups" else ["aggregate", el["reqs"]]])
-    return "C12 code_calls " + wire.line(cols, case["rows"], bool(lazy), case["gbs"], calls)
+    # `keq`: the dictionaries of the program find a group as Python's == and hash see its key (identKeyOf)
+    return "C12 %s " % ("code_calls_eq" if case.get("keq") else "code_calls") + wire.line(cols, case["rows"], bool(lazy), case["gbs"], calls)
 
 
 def code_results_seq(case, text):
@@ -626,12 +670,14 @@ def evaluate_seq(ctx, cases):
             ctx.hit("seq-op:" + (el["op"] if is_noop(el) else "groups" if el.get("op") == "groups" else el.get("via", "aggregate")))
         if any(a == b for a, b in zip(c["seq"], c["seq"][1:])):
             ctx.hit("seq-identical-repeat")
+        if c.get("keq"):
+            ctx.hit("equal-keys:sequence-cases")
         for b in c.get("backings", ["list"]):
             ctx.hit("backing:" + b)
         if len(ctx.violations) >= 4:
             return
         by_backing = {}
-        clause, impl = oracle_seq(c, ctx, by_backing)
+        clause, impl = oracle_seq(c, ctx, by_backing, wants)
         if clause is not None and _norm(clause) in _SEEN_CLAUSES.setdefault(id(ctx), set()):
             ctx.hit("violation-dup:" + _norm(clause))
             continue
@@ -645,7 +691,7 @@ def evaluate_seq(ctx, cases):
                     return _norm(oracle_seq(c2)[0]) == _norm(clause)
                 except InfraError:
                     return False
-            c_min = c if ctx.replaying else shrink(c, still)
+            c_min = c if ctx.replaying else _plainest(_shrink(c, still, 600), still)
             c_min, clause, alone = self_contained(ctx, c, c_min, clause)
             by2 = {}
             cl2, impl2 = oracle_seq(c_min, None, by2)
@@ -769,10 +815,11 @@ def mirror(case):
     kidx = [cols.index(k) for k in keys]
     rows = actual_rows(case)
     order, groups = [], []
+    same = same_key(case)
     for r in rows:
         k = [r[i] for i in kidx]
         for j, k2 in enumerate(order):
-            if wire.same(k, k2):
+            if same(k, k2):
                 groups[j].append(r)
                 break
         else:
@@ -819,8 +866,8 @@ def model_rows(case):
 
 def model_line(case):
     if case.get("op", "aggregate") == "groups":
-        return "C12 groups " + wire.line(case["columns"], model_rows(case), case["keys"])
-    return "C12 %s " % ("aggregate_x" if is_x(case) else "aggregate") + wire.line(
+        return "C12 %s " % ("groups_eq" if case.get("keq") else "groups") + wire.line(case["columns"], model_rows(case), case["keys"])
+    return "C12 %s " % ("aggregate_x" if is_x(case) else "aggregate_eq" if case.get("keq") else "aggregate") + wire.line(
         case["columns"], model_rows(case), case["keys"], case["reqs"])
 
 
@@ -959,13 +1006,14 @@ def compare(case, impl, want):
         return [r[p[n]] for n in key_names]
 
     remaining = list(range(len(rows)))
+    same = same_key(case)
     if len(rows) != len(wrows):
         return "not one output row per distinct key (%d rows for %d keys)" % (len(rows), len(wrows))
     for wr in wrows:
         wk = key_of(wr, wpos)
         hit = None
         for j in remaining:
-            if wire.same(key_of(rows[j], pos), wk):
+            if same(key_of(rows[j], pos), wk):
                 hit = j
                 break
         if hit is None:
@@ -978,14 +1026,24 @@ def compare(case, impl, want):
     return None
 
 
-def canonical(impl, unjudged=()):
+def canonical(impl, unjudged=(), by_value=()):
     """Order-free rendering of an implementation result, for comparing runs with each other.
-    `unjudged`: labels whose cells the property does not determine (MIN / MAX of a column with a NaN)."""
+    `unjudged`: labels whose cells the property does not determine (MIN / MAX of a column with a NaN);
+    `by_value`: key columns of a `keq` case — which member of a class of equal keys is shown depends on the
+    row order (the first one is), so these cells are rendered by value (`1`, `1.0` and `True` alike)."""
     if impl[0] == "err":
         return repr(impl)
     _, header, rows = impl
     order = sorted(range(len(header)), key=lambda i: header[i])
-    return repr((sorted(header), sorted(repr(["?" if header[i] in unjudged else _c(r[i]) for i in order]) for r in rows)))
+    return repr((sorted(header), sorted(repr(["?" if header[i] in unjudged else _ck(r[i]) if header[i] in by_value else _c(r[i])
+                                              for i in order]) for r in rows)))
+
+
+def _ck(v):
+    """A key cell by value."""
+    if isinstance(v, (bool, int)) or (isinstance(v, float) and math.isfinite(v)):
+        return "n%s" % Fraction(v)
+    return _c(v)
 
 
 def _c(v):
@@ -1021,16 +1079,37 @@ def layout_matches(case, impl, want):
         return False
     funcs = set() if case.get("op", "aggregate") == "groups" else {"%s(%s)" % (f, c) for f, c in case["reqs"]}
     kpos = [i for i, h in enumerate(want[1]) if h not in funcs]
+    same = same_key(case)
+    return all(same([r[i] for i in kpos], [w[i] for i in kpos]) for r, w in zip(impl[2], want[2]))
+
+
+def shows_first_member(case, impl, want):
+    """(`keq` cases, layout as the model's) does every output row show the key as the FIRST row of its class
+    writes it?  The model does (theorem representative_is_first_occurrence); not part of the property."""
+    funcs = set() if case.get("op", "aggregate") == "groups" else {"%s(%s)" % (f, c) for f, c in case["reqs"]}
+    kpos = [i for i, h in enumerate(want[1]) if h not in funcs]
     return all(wire.same([r[i] for i in kpos], [w[i] for i in kpos]) for r, w in zip(impl[2], want[2]))
 
 
 APPENDED = "after rows were appended to the frame: "
 
 
+LATER_CALL = "a later call on the same GroupBy object: "
+SECOND_OBJECT = "a call on a second GroupBy object of the same frame: "
+
+
 def _norm(clause):
-    """A clause up to its numbers, and up to whether rows were appended before the failing call (so that the
-    shrinker drops appends the failure does not need)."""
-    return None if clause is None else "".join(ch for ch in clause.replace(APPENDED, "") if not ch.isdigit())
+    """A clause up to its numbers, up to whether rows were appended before the failing call, up to where in a
+    sequence the failing call stands and up to the backing it failed on — so that the shrinker drops the appends,
+    the earlier calls, the other objects and the backings a failure does not need (the reported clause is that of
+    the shrunk input), and so that the failing inputs of one run differ in more than their wrapping."""
+    if clause is None:
+        return None
+    for pre in (APPENDED, LATER_CALL, SECOND_OBJECT):
+        clause = clause.replace(pre, "")
+    if clause.endswith("]") and " [" in clause:
+        clause = clause[:clause.rindex(" [")]
+    return "".join(ch for ch in clause if not ch.isdigit())
 
 
 def variants(case):
@@ -1050,9 +1129,11 @@ def variants(case):
     return out
 
 
-def oracle(case, by_backing=None):
-    """Evaluate the property on the implementation alone. Returns (clause|None, impl of first variant)."""
-    want = mirror(case)
+def oracle(case, by_backing=None, want=None):
+    """Evaluate the property on the implementation alone. Returns (clause|None, impl of first variant).
+    `want`: the mirror's answer for `case` when the caller has it already."""
+    if want is None:
+        want = mirror(case)
     first = None
     canon0 = None
     for b, p, c2 in variants(case):
@@ -1066,7 +1147,7 @@ def oracle(case, by_backing=None):
         if cl is not None:
             where = "" if (b == "list" and p is None) else (backing_label(b) if p is None else " [rows permuted]")
             return cl + where, impl
-        can = canonical(impl, unjudged_labels(case))
+        can = canonical(impl, unjudged_labels(case), case["keys"] if case.get("keq") else ())
         if canon0 is None:
             canon0 = can
         elif can != canon0:
@@ -1134,11 +1215,14 @@ def evaluate(ctx, cases, code_every=1):
     single-call case of an exhaustive scope; sequences, corpus, collision and random cases always."""
     cases = list(cases)
     seqs = [c for c in cases if "seq" in c]
+    cases = [c for c in cases if "seq" not in c]
+    if cases:
+        _evaluate_single(ctx, cases, code_every)  # single calls first: their failing inputs are the simplest
     if seqs:
         evaluate_seq(ctx, seqs)
-        cases = [c for c in cases if "seq" not in c]
-    if not cases:
-        return
+
+
+def _evaluate_single(ctx, cases, code_every):
     lines = [model_line(c) for c in cases]
     mouts = ctx.model.batch(lines)
     clines, cspans = [], []
@@ -1186,10 +1270,12 @@ def evaluate(ctx, cases, code_every=1):
             if want[0] == "ok" and any(x is None for r in want[2] for x in r[: len(set("%s(%s)" % (f, cc) for f, cc in c["reqs"]))]):
                 ctx.hit("null-aggregate-cell")
             ctx.hit("values:%s scale:%d%s" % (c.get("vkind", "number"), c.get("scale", 1), "m" if c.get("mixed") else ""))
+        if c.get("keq"):
+            _hit_equal_keys(ctx, c, want)
         if len(ctx.violations) >= 4:
             return  # enough distinct failing inputs; do not spend the budget on more of the same
         by_backing = {}
-        clause, impl = oracle(c, by_backing)
+        clause, impl = oracle(c, by_backing, want)
         if clause is not None and _norm(clause) in _SEEN_CLAUSES.setdefault(id(ctx), set()):
             ctx.hit("violation-dup:" + _norm(clause))
             continue
@@ -1202,7 +1288,7 @@ def evaluate(ctx, cases, code_every=1):
                     return _norm(oracle(c2)[0]) == _norm(clause)
                 except InfraError:
                     return False
-            c_min = c if ctx.replaying else shrink(_shrinkable(c), still)
+            c_min = c if ctx.replaying else _plainest(_shrink(_shrinkable(c), still, 300), still)
             c_min, clause, alone = self_contained(ctx, c, c_min, clause)
             by2 = {}
             cl2, impl2 = oracle(c_min, by2)
@@ -1221,9 +1307,82 @@ def evaluate(ctx, cases, code_every=1):
             ctx.hit("layout-differs-from-model(order only; not part of the property)")
         else:
             ctx.hit("layout:labels-then-keys,first-occurrence-order")
+            if c.get("keq") and impl[0] == "ok":
+                ctx.hit("equal-keys:shown-as-the-first-row-of-the-class-writes-it" if shows_first_member(c, impl, mres)
+                        else "equal-keys:shown-as-another-member-of-the-class(not part of the property)")
         if cl is None and zs:
             sq = as_seq(c)
             _code_verdict(ctx, sq, by_backing, {z: code_results_seq(sq, couts[clo + j]) for j, z in enumerate(zs)}, [mres])
+
+
+def _hit_equal_keys(ctx, c, want):
+    """Input distribution of the `keq` stream: how many classes hold keys written in several ways, and which."""
+    ctx.hit("equal-keys:cases")
+    cols = c["columns"]
+    kidx = [cols.index(k) for k in c["keys"] if k in cols]
+    if want[0] != "ok" or len(kidx) != len(c["keys"]):
+        return
+    same = same_key(c)
+    classes = []
+    for r in c["rows"]:
+        k = [r[i] for i in kidx]
+        for cl in classes:
+            if same(cl[0], k):
+                if not any(wire.same(k, k2) for k2 in cl):
+                    cl.append(k)
+                break
+        else:
+            classes.append([k])
+    multi = [cl for cl in classes if len(cl) > 1]
+    ctx.hit("equal-keys:classes-written-in-several-ways:%s" % (len(multi) if len(multi) < 3 else "3+"))
+    kinds = set()
+    for cl in multi:
+        for j in range(len(kidx)):
+            ts = {type(k[j]).__name__ for k in cl}
+            if len(ts) > 1:
+                kinds.add("+".join(sorted(ts)))
+            elif len({wire.fbits(k[j]) for k in cl if isinstance(k[j], float)}) > 1:
+                kinds.add("0.0/-0.0")
+    for t in kinds:
+        ctx.hit("equal-keys:one-class-holds:" + t)
+    if multi and len(kidx) > 1:
+        ctx.hit("equal-keys:composite-key-differing-in-one-component-only")
+    if len(classes) > len(multi) > 0:
+        ctx.hit("equal-keys:next-to-keys-written-in-one-way")
+
+
+def _shrink(c, still, budget):
+    """`core.shrink`, preceded for long frames by halving the rows (the generic shrinker drops one row per try);
+    a long frame that cannot be halved (the failure needs its length) gets a short budget: every try costs a
+    pass over the whole frame."""
+    def ok(x):
+        try:
+            return still(x)
+        except Exception:  # noqa: BLE001
+            return False
+    progress = len(c["rows"]) > 40
+    while progress and len(c["rows"]) > 8:
+        progress = False
+        n = len(c["rows"])
+        for part in (c["rows"][: n // 2], c["rows"][n // 2:], c["rows"][: n - n // 4], c["rows"][n // 4:]):
+            c2 = dict(c, rows=part)
+            c2.pop("perms", None)
+            if ok(c2):
+                c, progress = c2, True
+                break
+    return shrink(c, still, budget=budget if len(c["rows"]) <= 60 else 40)
+
+
+def _plainest(c_min, still):
+    """The shrunk input on a plain list-backed frame when it fails there as well."""
+    if c_min.get("backings", ["list"]) != ["list"]:
+        c2 = dict(c_min, backings=["list"])
+        try:
+            if still(c2):
+                return c2
+        except Exception:  # noqa: BLE001
+            pass
+    return c_min
 
 
 def _with_note(detail, note):
@@ -1273,6 +1432,23 @@ def row_alphabet(keys, vs, ws):
     return [[k, v, w] for k in keys for v in vs for w in ws]
 
 
+def rotate_columns(case, r):
+    """The same case with the columns of the frame rotated by `r` places: every column, a requested one
+    included, is the FIRST column of the frame (position 0) in one of the rotations and the last in another."""
+    r %= len(case["columns"])
+    if r == 0:
+        return case
+
+    def rot(xs):
+        return list(xs[r:]) + list(xs[:r])
+    c = dict(case)
+    c["columns"] = rot(case["columns"])
+    c["rows"] = [rot(x) for x in case["rows"]]
+    if "seq" in case:
+        c["seq"] = [dict(el, row=rot(el["row"])) if el.get("op") == APPEND else el for el in case["seq"]]
+    return c
+
+
 def exhaustive_frames(ctx, nmax, alphabet, reqlists, backings, scale_cycle):
     i = 0
     for n in range(nmax + 1):
@@ -1282,7 +1458,8 @@ def exhaustive_frames(ctx, nmax, alphabet, reqlists, backings, scale_cycle):
                 i += 1
                 # the lazily backed variant cycles through every way of getting a lazily backed frame
                 bk = [LAZY_CYCLE[(i // 3) % len(LAZY_CYCLE)] if b == "gen" else b for b in backings]
-                yield base(rows, reqs, backings=bk, scale=s, mixed=m)
+                # ... and the columns through every rotation (a requested column at position 0, at the end)
+                yield rotate_columns(base(rows, reqs, backings=bk, scale=s, mixed=m), i // 2)
 
 
 LAZY_CYCLE = ["gen", "select", "filter", "take", "gen", "genselect"]
@@ -1328,11 +1505,20 @@ def gen_key_value(rng, family):
     if family == "int":
         return rng.choice([-1, -2, 0, 2**61 - 1, 1, 2, 3, -3, 2**61, 2**61 - 2, -(2**61), 2**62, 10**20])
     if family == "text":
-        return rng.choice(["a", "b", "", "A", "é", "ab", "a ", "日本", "-1", "None"])
+        # ... with pairs that a normalisation of text keys would merge: case, trailing blank, NFC / NFD, casefold
+        return rng.choice(["a", "b", "", "A", "é", "ab", "a ", "日本", "-1", "None", "e\u0301", "ß", "ss", " a", "null"])
     if family == "bool":
         return rng.random() < 0.5
     if family == "float":
         return rng.choice([0.5, -0.5, 1.5, 2.25, 1e300, -1e-300, float("inf"), float("-inf"), 0.1])
+    if family == "eqnum":
+        # equal numbers written differently (bool / int / float, both zeros), exactness at 2**53, hash-colliding
+        # neighbours (hash(2**61 - 1) == hash(0) == hash(False) == hash(0.0), hash(2.0**61) == hash(1) == hash(True))
+        return rng.choice([0, 0.0, -0.0, False, 1, 1.0, True, 1, 1.0, True, 2, 2.0, -1, -1.0, -2, -2.0, 2**53, float(2**53), 2**53 + 1,
+                           2**61 - 1, 2**61, float(2**61), 10**20, 1e20, 0.5, float("inf")])
+    if family == "eqmix":
+        # ... next to texts that look like them (never equal to a number) and to ordinary keys
+        return rng.choice([0, -0.0, False, 1, 1.0, True, 2, 2.0, "1", "1.0", "True", "0", "", "a", 7, 7.0, 7.5])
     # mixed: no 0/1 ints next to the booleans, no integral floats next to ints
     return rng.choice(["a", "", "2", "-1", "True", "0.5", 2, -1, -2, 2**61 - 1, 7, True, False, 0.5, -1.5, 2.5])
 
@@ -1343,7 +1529,13 @@ def random_case(ctx, big=False):
     kcols = ["k%d" % i for i in range(nkeys)]
     nv = rng.choice([1, 2, 2, 3])
     vcols = ["v", "w", "x"][:nv]
-    families = [rng.choice(["int", "int", "text", "bool", "float", "mixed"]) for _ in kcols]
+    # a share of the stream: keys that are equal but written differently (`keq`, judged by Python's ==)
+    keq = rng.random() < 0.14
+    if keq:
+        families = [rng.choice(["eqnum", "eqnum", "eqmix", "text", "bool"]) for _ in kcols]
+        families[rng.randrange(nkeys)] = rng.choice(["eqnum", "eqmix"])
+    else:
+        families = [rng.choice(["int", "int", "text", "bool", "float", "mixed"]) for _ in kcols]
     extra = ["pad"] if rng.random() < 0.3 else []
     cols = kcols + vcols + extra
     order = list(range(len(cols)))
@@ -1353,6 +1545,8 @@ def random_case(ctx, big=False):
     else:
         n = rng.choice([0, 1, 2, 3, 4, 5, 6, 8, 12, 20])
     vkind = rng.choice(["number"] * 7 + ["text", "decimal", "decimal", "bool", "xfloat", "xfloat"])
+    if keq and vkind == "xfloat":
+        vkind = "number"
     pspecial = 0.0
     if vkind == "xfloat":
         # floats with NaN, the infinities and the negative zero among them
@@ -1386,14 +1580,17 @@ def random_case(ctx, big=False):
     if rows and rng.random() < 0.3:
         victim = rows[rng.randrange(len(rows))]
         kidx = [cols.index(k) for k in kcols]
+        same = same_key({"keq": keq})
         for r in rows:
-            if all(wire.same(r[i], victim[i]) for i in kidx):
+            if same([r[i] for i in kidx], [victim[i] for i in kidx]):
                 for v in vcols:
                     if rng.random() < 0.8:
                         r[cols.index(v)] = None
     keys = list(kcols)
     rng.shuffle(keys)
     c = {"columns": cols, "vcols": list(vcols), "keys": keys, "rows": rows, "scale": scale, "mixed": mixed}
+    if keq:
+        c["keq"] = True
     if vkind != "number":
         c["vkind"] = vkind
     elif scale > 1 and not mixed and rng.random() < 0.3:
@@ -1590,6 +1787,57 @@ def random_seq_case(ctx, big=False):
     return out
 
 
+EQ_ROWS1 = row_alphabet([1, 1.0, True, 0, -0.0, False, None], [None, 3], [1])
+EQ_ROWS2 = [[k, j, v, 1] for k in (1, True, 1.0, 0) for j in ("a", 1, 1.0, None) for v in (None, 2)]
+EQ_REQS = [ALL_SIX, [["SUM", "v"], ["COUNT", "*"]], [["COUNT", "v"], ["MAX", "v"], ["SUM", "w"]]]
+EQ_SEQ_FRAME = [[1, "a", 1, 5], [1.0, "a", 2, None], [True, "b", None, 1], [0, "a", 3, 3], [-0.0, "a", None, None], [False, "b", 4, 4]]
+EQ_APPEND_ROWS = [[True, "a", 7, None], [0.0, "b", None, None], [2, "a", 1, 1], [1.0, "b", 0, 0]]
+
+
+def equal_key_cases(ctx, nmax):
+    """Keys that are equal but written differently (seeded change C12-w5s1: a group identified by
+    (type, value) pairs)."""
+    i = 0
+    for n in range(nmax + 1):
+        for rows in itertools.product(EQ_ROWS1, repeat=n):
+            i += 1
+            bk = ["list"] if i % 4 else ["list", (LAZY_CYCLE + ["dicts", "schema", "decoy"])[(i // 4) % (len(LAZY_CYCLE) + 3)]]
+            if i % 11 == 0:
+                yield dict(base(rows, [], backings=bk, keq=True), op="groups")
+            else:
+                yield base(rows, EQ_REQS[i % len(EQ_REQS)] if n >= 3 else EQ_REQS[0], backings=bk, keq=True,
+                           all_perms=(2 <= n <= 3 and i % 5 == 0), bare_key=bool(i % 2))
+    for n in range(3):
+        for rows in itertools.product(EQ_ROWS2, repeat=n):
+            i += 1
+            yield {"columns": ["k", "j", "v", "w"], "vcols": ["v", "w"], "keys": [["k", "j"], ["j", "k"]][i % 2], "rows": [list(r) for r in rows],
+                   "reqs": EQ_REQS[i % len(EQ_REQS)], "scale": 1, "keq": True, "all_perms": n == 2 and i % 3 == 0,
+                   "backings": ["list"] if i % 3 else [LAZY_CYCLE[(i // 3) % len(LAZY_CYCLE)]], "key_container": ["list", "tuple"][(i // 2) % 2]}
+    for seq in itertools.product(SEQ_ALPHABET, repeat=2):
+        i += 1
+        yield dict(seq_base(EQ_SEQ_FRAME, seq, [["k", "j"]], ["list"] if i % 2 else [LAZY_CYCLE[i % len(LAZY_CYCLE)]]), keq=True)
+        yield dict(seq_base(EQ_SEQ_FRAME, [dict(seq[0], gb=0), dict(seq[1], gb=1)], [["k"], ["j", "k"]], ["list"]), keq=True)
+        yield dict(seq_base(EQ_SEQ_FRAME, [seq[0], {"op": APPEND, "row": EQ_APPEND_ROWS[i % len(EQ_APPEND_ROWS)]}, seq[1]],
+                            [["k", "j"]], [["list", "gen", "dicts", "take"][i % 4]]), keq=True)
+
+
+def scale_cases(ctx):
+    """Frames beyond every round number a fast path or a batch size could hide behind (DataFrame.arraysize = 100,
+    to_batches(1000), 256 / 512 / 1024 groups): many rows in few groups, and as many groups as rows."""
+    rng = ctx.rng
+    shapes = ctx.scale([(1030, 5), (300, 300)], [(1100, 7), (600, 600), (2100, 1100), (5000, 3), (1030, 515), (300, 257)])
+    for n, g in shapes:
+        ks = [(i % g) - g // 2 for i in range(n)]
+        rng.shuffle(ks)
+        rows = [[k, "a" if k % 3 else "b", None if rng.random() < 0.3 else rng.randint(-9, 9), 1 if i == 0 else None]
+                for i, k in enumerate(ks)]
+        yield {"columns": ["k", "j", "v", "w"], "vcols": ["v", "w"], "keys": ["k"] if g > 100 else ["j", "k"], "rows": rows, "scale": 1,
+               "reqs": [["COUNT", "*"], ["SUM", "v"], ["MAX", "w"]], "backings": [rng.choice(["list", "gen", "take", "dicts"])]}
+        yield {"columns": ["k", "j", "v", "w"], "vcols": ["v", "w"], "rows": rows, "scale": 1, "gbs": [["k"]],
+               "seq": [{"op": "groups", "reqs": []}, {"op": "aggregate", "reqs": [["COUNT", "v"]], "gb": 0}],
+               "backings": [rng.choice(["list", "select"])]}
+
+
 def observe_outside_domain(ctx):
     """Inputs the property does not speak about (see design_notes/C12.md, "What the property demands of the
     values"): what orso does with them is recorded in the evidence and never judged."""
@@ -1619,9 +1867,8 @@ def observe_outside_domain(ctx):
     obs("sum-over-float-and-decimal", lambda: agg([("a", 0.5), ("a", Decimal("0.5"))], [("SUM", "v")]) and "returns")
     obs("sum-over-text", lambda: agg([("a", "x")], [("SUM", "v")]) and "returns")
     # keys: grouping is by Python equality of the key tuples
-    obs("keys-True-and-1", lambda: "%d group(s)" % len(agg([(True, 1), (1, 2)], [("COUNT", "*")])))
-    obs("keys-1-and-1.0", lambda: "%d group(s)" % len(agg([(1, 1), (1.0, 2)], [("COUNT", "*")])))
-    obs("keys-0.0-and--0.0", lambda: "%d group(s)" % len(agg([(0.0, 1), (-0.0, 2)], [("COUNT", "*")])))
+    # (equal keys written differently — True / 1 / 1.0, 0.0 / -0.0 — are inside the property: the `keq` stream)
+    obs("keys-Decimal-1-and-1", lambda: "%d group(s)" % len(agg([(Decimal(1), 1), (1, 2)], [("COUNT", "*")])))
     obs("keys-two-nan-objects", lambda: "%d group(s)" % len(agg([(float("nan"), 1), (float("nan"), 2)], [("COUNT", "*")])))
     obs("keys-one-nan-object-twice", lambda: "%d group(s)" % len(agg([(nan, 1), (nan, 2)], [("COUNT", "*")])))
     obs("key-unhashable", lambda: agg([([1], 1)], [("COUNT", "*")]) and "returns")
@@ -1665,8 +1912,12 @@ def run(ctx):
     ctx.note("rule", "a case is a frame + key columns + request list (+ backings and row permutations) run on orso, on the "
              "Lean model and on the Python mirror; non-trivial = at least 2 rows and at least one group; distinct by canonical JSON")
     ctx.note("assumptions", [
-        "keys are drawn from domains on which Python == and structural equality coincide (no True next to 1, no 1.0 next to 1, "
-        "no NaN, no -0.0); every generated case is checked to be inside that domain",
+        "keys: outside the dedicated stream they are drawn from domains on which Python == and structural equality coincide (no "
+        "True next to 1, no 1.0 next to 1, no NaN, no -0.0; checked per case); the `keq` stream holds keys that are equal but "
+        "written differently (1 / 1.0 / True, 0 / 0.0 / -0.0 / False, 2**53 / 2.0**53, composite keys differing in one such "
+        "component) and is judged by a reference that partitions by Python's == (one output row per class of equal keys; which "
+        "member of the class the row shows is not demanded), Lean model Model/GroupByEq.lean; a NaN is never a key",
+        "every cell handed to the implementation is a fresh object: equal keys are not identical objects by accident",
         "value columns hold ints and dyadic floats (sums exact and order independent); the model computes on the integers "
         "x of x/scale, the Python mirror on the real values, and the two are compared exactly on every case",
         "a float NaN is a value, not a null: float columns with NaN, inf, -inf and -0.0 are judged NaN-aware for COUNT, SUM, AVG "
@@ -1725,7 +1976,7 @@ def run(ctx):
     t = _batches(ctx, e4())
     scope.append("all permutations of %d frames of 2..5 rows (plus: E1/E2 are closed under permutation)" % (t // len(FIXED_REQS)))
     # E5: every sequence of <= 3 calls over 8 calls on ONE GroupBy object (and alternating between two)
-    t = _batches(ctx, exhaustive_sequences(ctx, 3), size=1000)
+    t = _batches(ctx, (rotate_columns(c, j // 3) for j, c in enumerate(exhaustive_sequences(ctx, 3))), size=1000)
     scope.append("all sequences of 1..3 calls over %d calls (aggregate lists, sum/avg/min/count wrappers, groups) on one GroupBy "
                  "object, alternating between two objects with the key columns in both orders, every third also between two "
                  "objects with different key columns on a lazily backed frame, and every pair of calls with a use of the frame "
@@ -1749,10 +2000,23 @@ def run(ctx):
                  "(COUNT / SUM / AVG / COUNT(*) judged everywhere, MIN / MAX where the group holds no NaN), and all pairs of "
                  "calls on one object over such a frame (%d cases)" % (len(a6), t))
     secs["E6"] = round(time.time() - t0, 1)
+    # E7: keys that are EQUAL but written differently (1 / 1.0 / True, 0 / -0.0 / False), judged by Python's ==
+    t = _batches(ctx, (rotate_columns(c, j // 2) for j, c in enumerate(equal_key_cases(ctx, ctx.scale(3, 4)))))
+    scope.append("keys equal but written differently: all frames of 0..%d rows over %d distinct rows with the keys 1, 1.0, True, "
+                 "0, -0.0, False, null; all frames of 0..2 rows over %d distinct rows with a two-column key differing in one "
+                 "component only; all pairs of calls (one object, two objects, a row with an equal key appended in between) "
+                 "over such a frame (%d cases)" % (ctx.scale(3, 4), len(EQ_ROWS1), len(EQ_ROWS2), t))
+    secs["E7"] = round(time.time() - t0, 1)
     ctx.note("exhaustive_scope", scope)
     ctx.exhaustive = False
     # the dedicated stream of unequal keys with equal hashes
     evaluate(ctx, [collision_case(ctx) for _ in range(ctx.scale(400, 5000))])
+    # frames beyond the round numbers (rows: 100, 1000, 1024; groups: 256, 512, 1024)
+    big = list(scale_cases(ctx))
+    evaluate(ctx, big)
+    for c in big:
+        ctx.hit("scale:%d rows in %d groups" % (len(c["rows"]), len({r[0] for r in c["rows"]})))
+    secs["scale"] = round(time.time() - t0, 1)
     n_random = ctx.scale(4000, 60000)
     done = 0
     # at least 1000 random cases whatever the load on the machine (the widest generators live here)
